@@ -12,7 +12,7 @@ for wt in "$@"; do
   letter=$(python3 -c "n=$n; print('abcdefghijklmnopqrstuvwxyz'[n] if n < 26 else 'z' + 'abcdefghijklmnopqrstuvwxyz'[n - 26])")
   name=$pid-$letter
   (cd /repo && git apply $wt/seed.patch) || { echo "$wt: patch does not apply"; continue; }
-  o=$(cd /tmp/verif_head && ./check $pid quick 2>&1); rc=$?
+  o=$(cd /tmp/verif_head && timeout 900 ./check $pid quick 2>&1); rc=$?
   git -C /repo checkout -- .
   first="missed"; [ $rc -eq 1 ] && first="detected"; [ $rc -eq 2 ] && first="inconclusive"
   r=$(tools/seedtest.sh $wt $name quick $pid 2>&1 | tail -1)
